@@ -84,6 +84,14 @@ func travScenarios() []*tScenario {
 	add(&tScenario{Name: "repeat", K: 2, Alpha: 2, Peers: map[int]tPeer{
 		8: {Claim: 8, Nodes: []tContact{tc(4, 9), tc(6, 7)}}, 9: {Claim: 4, Nodes: []tContact{tc(4, 9), tc(5, 9)}}, 7: {Claim: 6, Nodes: []tContact{tc(5, 9), tc(7, 8)}}},
 		Adds: [][]tContact{{tc(0, 8), tc(0, 9), tc(5, 9)}}, Polls: 1})
+	// an address first reported without an ID (or under a far one) and reported again, under a near
+	// ID, while the first report still waits unqueried; the result set fills before either is reached
+	add(&tScenario{Name: "rereport-noid", K: 2, Alpha: 1, Peers: map[int]tPeer{
+		3: {Claim: 3, Nodes: []tContact{tc(2, 2)}}, 2: {Claim: 2, Nodes: []tContact{tc(1, 5)}}, 5: {Claim: 1}},
+		Adds: [][]tContact{{tc(3, 3), tc(0, 5)}}, Polls: 1, Expect: []byte{1, 2}})
+	add(&tScenario{Name: "rereport-far", K: 2, Alpha: 1, Peers: map[int]tPeer{
+		4: {Claim: 4, Nodes: []tContact{tc(2, 2), tc(3, 3)}}, 3: {Claim: 3}, 2: {Claim: 2, Nodes: []tContact{tc(1, 5)}}, 5: {Claim: 1}},
+		Adds: [][]tContact{{tc(4, 4), tc(9, 5)}}, Polls: 1, Expect: []byte{1, 2}})
 	add(&tScenario{Name: "silent-stop", K: 2, Alpha: 2, Peers: map[int]tPeer{
 		8: {Claim: 8, Nodes: []tContact{tc(1, 1), tc(2, 2), tc(3, 3)}}, 2: {Claim: 2}, 3: {Claim: 3, Nodes: []tContact{tc(1, 1)}}},
 		Adds: [][]tContact{{tc(0, 8)}}, Stop: true, Polls: 1})
